@@ -34,7 +34,9 @@ chk(
     "DirectorySnapshotDiff and judged by the laws of the statement (set equalities keyed by inode, accounting equation, "
     "modified iff identity kept and mtime/size changed, kind lists, self-diff empty, mirror, ignore_device); random pairs include a root "
     "whose own identity changes while its old/new inode stays inside the tree; the subtraction and ContextManager entry points; and every "
-    "diff the real PollingEmitter builds on the real disk during hostile histories (postcondition wrapper on DirectorySnapshotDiff.__init__).",
+    "diff the real PollingEmitter builds on the real disk during hostile histories (postcondition wrapper on DirectorySnapshotDiff.__init__); "
+    "snapshots that went through pickle/copy; device change plus modifications under ignore_device; sockets / devices / FIFOs (never "
+    "directories); the same inode number on two devices; a name that is not in Unicode NFC.",
     "Trusted: the oracle in wdverif/oracles/difflaws.py (written from the statement, reads only public accessors); "
     "the VFS feeding stat/listdir. Inode-number symmetry is assumed for the enumerated part only.",
 )
@@ -62,7 +64,8 @@ chk(
     "linearizability (Wing-Gong + memo) against 'a put may be dropped only if equal to the last accepted, still queued put', driven by "
     "sys.monitoring noise and by holding a thread at every executed line of every function the SkipRepeatsQueue class defines; producers "
     "also record qsize() observations (an op of the sequential model), so 'taken out' is observable before get() has returned; "
-    "(c) equality/hash law over all pairs of 156 event objects.",
+    "(c) equality/hash law over all pairs of 260 event objects (incl. str/bytes twins and paths that differ only by Unicode "
+    "normalisation form); near-equal items back to back (equal hash, normalisation twins, synthetic twin) must all be delivered.",
     "Not dropping a duplicate is never a violation (statement forbids only loss). Trusted: the linearizability checker and the "
     "reference equality. Preemption only at line granularity; coordinated multi-preemption schedules are sampled, not enumerated.",
 )
@@ -89,7 +92,9 @@ chk(
     "calls; after every call: observer.emitters vs reference key set, is_alive() vs started, marker event per key must reach exactly "
     "the reference handler set, exceptions must match the reference (KeyError no-ops, injected failure); the stop hook of the emitter "
     "being unscheduled is a fault opportunity too (the watch must be gone all the same); stop() may be repeated, with a directed "
-    "stop/schedule/stop family.",
+    "stop/schedule/stop family; an emitter that ended by itself (as after its root was deleted) followed by schedule/unschedule; the same "
+    "path re-scheduled with follow_symlink=True (an equal watch); a neighbour observer with one fixed registration that nothing the first "
+    "observer is told may affect, audited after every call.",
     "Emitters are scripted (BaseObserver(ScriptedEmitter)). The reference encodes documented failure behaviour (see ASSUMPTIONS in "
     "the evidence). Single-threaded by design: the property is about call sequences.",
     category="fault_enumeration",
@@ -114,7 +119,8 @@ chk(
     "for PatternMatchingEventHandler and RegexMatchingEventHandler (thorough: complete, quick: 1/12 strided), base handler on every "
     "class, filter_paths/match_any_paths on 6 path lists x 144 pattern pairs x 2; each dispatch is compared with a reference evaluator "
     "written from the statement; a shared handler instance is also driven from two threads under sys.monitoring noise; callbacks re-bound "
-    "on the instance / class after earlier dispatches must be the ones called.",
+    "on the instance / class after earlier dispatches must be the ones called; two handlers with different rules on two threads; "
+    "back-references in non-first regexes; paths not in normal form (trailing separator, '/.'); identically configured handlers on one watch.",
     "Trusted: the reference evaluator (PurePosixPath/PureWindowsPath.match, re.match; only non-empty paths are examined).",
 )
 
@@ -205,7 +211,8 @@ chk(
     "0.05 s observer timeout and an unmatched move-out right before stop(); event floods of 12 000-60 000 queued events with a blocked "
     "handler and stop() from outside / from the callback. Violations: a call that does not return with all involved threads parked "
     "identically in 3 samples (deadlock), a library thread alive 50 ms after the final stop()+join() returned, a thread kept alive after "
-    "a completed stop() until a further stop(), an undocumented exception.",
+    "a completed stop() until a further stop(), an undocumented exception; an emitter in the middle of a 6.5 s unit of work when "
+    "stop()/unschedule() arrives (the call must wait for it).",
     "Liveness restated as bounded progress + logical stuck-state test; the watchdog alone firing is inconclusive. Real kernel, not a "
     "simulated one; virtual clock not used here (C08/C17 use it).",
 )
@@ -271,7 +278,9 @@ chk(
     "line of EventDebouncer.run and AutoRestartTrick._stop_process/_restart_process/_start_process while stop() or the next event runs; "
     "stop() before / racing start() of the helper threads; the watcher thread of the n-th child failing to start; events never handed to "
     "a debouncer must not appear in its batches; debounce timing judged from the call stamp of handle_event() (sound lower bound); "
-    "the debouncer parked inside threading.Condition.wait on the timeout path while an event arrives.",
+    "the debouncer parked inside threading.Condition.wait on the timeout path while an event arrives; callbacks that feed an event "
+    "back into / stop their own debouncer; synthetic events among the triggering events; the shell-command trick served by two "
+    "event sources at once.",
     "Processes are simulated (fake Popen, kill_process, fast clock behind tricks.subprocess/kill_process/time); real signals are not "
     "exercised (the upstream tests that do are skipped here for lack of PyYAML). Three genuine defects of AutoRestartTrick are recorded "
     "as known findings (F11, F21 and its consequence) and matched by mechanism.",
@@ -287,7 +296,8 @@ chk(
     "rename / move-in / move-out contract; non-recursive scope; no swallowed exception. Decoders: random buffers of 0-6 records, name "
     "lengths 0-255 (inotify) / 1-300 and 1000-9000 UTF-16 units incl. non-BMP and U+FEFF (Windows), paddings; a decoder exception is a "
     "violation. FSEvents 'reuse' regime: inodes freed by reported deletions may be re-used after that delivery; invariant at every "
-    "delivery: the emitter's inode set holds no item whose last native record said Removed.",
+    "delivery: the emitter's inode set holds no item whose last native record said Removed; bytes roots (FSEvents) and a base-class "
+    "event filter (accepts everything) as configurations; an exception escaping queue_events()/events_callback() is a violation.",
     "Conditional on simulator fidelity (listed under assumptions in the evidence): neither OS is present. Seven genuine deviations "
     "are recorded as known findings (F13a-c, F14, F23-F25) and matched by mechanism; they cannot be confirmed on the real systems from here.",
 )
